@@ -66,6 +66,9 @@ type Broker struct {
 	Rec    *Recorder
 	runErr chan error
 	gate   func(point string, kv map[string]interface{})
+	// traceGate is called at every trace hook (after the event is recorded); it may block: a blocking trace hook is a
+	// scheduler gate at that point of the code
+	traceGate func(ev string, kv map[string]interface{})
 }
 
 var (
@@ -89,14 +92,19 @@ func install() {
 		regMu.RLock()
 		b := registry[srv]
 		regMu.RUnlock()
-		if b == nil || b.Rec == nil || !b.Rec.Hooks {
+		if b == nil {
 			return
 		}
-		e := Event{"e": "hook", "h": ev}
-		for k, v := range kvmap(kv) {
-			e[k] = v
+		if b.Rec != nil && b.Rec.Hooks {
+			e := Event{"e": "hook", "h": ev}
+			for k, v := range kvmap(kv) {
+				e[k] = v
+			}
+			b.Rec.Log(e)
 		}
-		b.Rec.Log(e)
+		if b.traceGate != nil {
+			b.traceGate(ev, kvmap(kv))
+		}
 	}
 	server.VerifGate = func(srv interface{}, point string, kv ...interface{}) {
 		regMu.RLock()
@@ -115,6 +123,7 @@ type Options struct {
 	Server    []server.Options // extra options (hooks, plugins)
 	Websocket bool
 	Gate      func(point string, kv map[string]interface{})
+	TraceGate func(ev string, kv map[string]interface{}) // see Broker.traceGate
 	Rec       *Recorder
 }
 
@@ -153,7 +162,7 @@ func start(o Options) (*Broker, error) {
 	if err != nil {
 		return nil, err
 	}
-	b := &Broker{Addr: ln.Addr().String(), Rec: o.Rec, runErr: make(chan error, 1), gate: o.Gate}
+	b := &Broker{Addr: ln.Addr().String(), Rec: o.Rec, runErr: make(chan error, 1), gate: o.Gate, traceGate: o.TraceGate}
 	if b.Rec == nil {
 		b.Rec = NewRecorder()
 	}
